@@ -359,6 +359,9 @@ func JumboBatch(r *rand.Rand, n int, prefix string, tagDV ...bool) ([]*model.MDo
 		if (i < sa || i >= sb) && r.Intn(4) > 0 {
 			d.Fields = append(d.Fields, &model.MField{N: "sparse", DV: true, Terms: []*model.MTerm{{T: []byte(fmt.Sprintf("s%d", i%7)), F: 1}}})
 		}
+		if i < sa/3 && r.Intn(3) > 0 { // "head": doc values only at the very beginning (every later 1024-document chunk, incl. the last, is empty)
+			d.Fields = append(d.Fields, &model.MField{N: "head", DV: true, Terms: []*model.MTerm{{T: []byte(fmt.Sprintf("h%d", i%5)), F: 1}}})
+		}
 		body := &model.MField{N: "body", DV: true, St: r.Intn(10) < 3}
 		if body.St {
 			body.V = []byte(strings.Repeat("s", r.Intn(6)))
@@ -423,6 +426,11 @@ func AddExactTerms(r *rand.Rand, docs []*model.MDoc, field string, spec map[stri
 			f.Terms = append(f.Terms, &model.MTerm{T: []byte(t), F: 1})
 		}
 		docs[d].Fields = append(docs[d].Fields, f)
+		if r.Intn(25) == 0 {
+			// a second instance of the field repeating one of the terms: the number of term INSTANCES then
+			// exceeds the number of DOCUMENTS (cardinality) of that term
+			docs[d].Fields = append(docs[d].Fields, &model.MField{N: field, Terms: []*model.MTerm{{T: []byte(ts[r.Intn(len(ts))]), F: 1}}})
+		}
 	}
 }
 
